@@ -11,9 +11,9 @@ import e2check
 def runs(rng, tier):
     out = []
     if tier == 'thorough':
-        for k in range(360):
+        for k in range(1200):
             out.append([rng.below(1 << 30), rng.choice([0, 50, 200, 400]), 1 + rng.below(5), rng.choice([2, 4, 8])])
-        for k in range(60):   # the stop()-entered-before-finalize style, forced
+        for k in range(200):   # the stop()-entered-before-finalize style, forced
             out.append([rng.below(1 << 30), rng.choice([0, 100, 300]), 1 + rng.below(3), rng.choice([3, 6]), 1])
     else:
         for k in range(40):
